@@ -75,7 +75,8 @@ def log_step(res, rng, tier):
                 if cp > 0:
                     draws += [thr * (1 - 1e-9), thr * (1 + 1e-9)]
                 for u in draws:
-                    for v in (1, 3):
+                    # multiplicities ≥ 2^16 / 2^32 are only deterministic where no draw is needed: at the maximum counter
+                    for v in ((1, 3) if c < maxc else (1, 3, 65535, 65536, 65539, 2**32 + 5)):
                         cm.cms[0, 0] = c
                         cm.rand_nums[:] = u
                         cm.rand_ptr = 0
@@ -84,7 +85,7 @@ def log_step(res, rng, tier):
                         newc = int(cm.cms[0, 0])
                         ptr = int(cm.rand_ptr)
                         ops.append(["log.drawsclear", None, "setup"])
-                        ops.append([f"log.draws " + " ".join([fbits(u)] * v), None, "setup"])
+                        ops.append([f"log.draws " + " ".join([fbits(u)] * min(v, 4)), None, "setup"])
                         ops.append([f"log.counter {c} {v} 0 0", f"{newc} {ptr}", "exact"])
                         # model-independent oracle: the documented rule
                         exp = c
@@ -449,6 +450,34 @@ def rand_refill(res, rng, tier):
         res.nontrivial(["rand_refill", s, kind, refills])
         sess.add_case({"slice": "rand_refill", "seed": s, "kind": kind}, ops)
         res.sample({"slice": "rand_refill", "numba_seed": s, "kind": kind, "chunks": chunks, "refills": refills})
+    # one add with a multiplicity ≥ 2^16 far below the ceiling: 65539 unit steps, ~32 refills of the seeded generator
+    s = rng.randrange(2**31)
+    cm = make("log8", 1, 1)
+    base = float(cm.base)
+    first = np().array([rng.random() for _ in range(2048)])
+    nj["seed"](s)
+    batches = [np().array(nj["batch"]()) for _ in range(34)]
+    nj["seed"](s)
+    cm.rand_nums[:] = first
+    cm.rand_ptr = 0
+    v = 65539
+    cm.add(b"k", v)
+    ops = [["cfg 1 1", None, "setup"], ["key 0 6b 0", None, "setup"], [f"log.cfg 15 255 {fbits(base)}", None, "setup"], ["log.drawsclear", None, "setup"]]
+    for arr in [first] + batches:
+        ops.append(["log.draws " + " ".join(fbits(x) for x in arr), None, "setup"])
+    ops.append(["log.new 0", None, "setup"])
+    ops.append([f"log.add 0 0 {v}", None, "op"])
+    cnt, na = int(cm.cms[0, 0]), int(cm.n_added())
+    # consumed draws = v - 15 unconditional steps (no draw below num_reserved) unless the ceiling is reached
+    ops.append(["log.dump 0", (lambda got, c=cnt, n=na: got.split(" | ")[0] == str(c) and got.split(" | ")[1] == f"{n} 0"), "exact"])
+    if na != v:
+        res.oracle_failures.append({"pid": "C05", "what": f"C05 log8 add(key, {v}) far below the ceiling (counter reached {cnt} of 255): n_added() grew by {na}, not by {v}", "kind": "log8", "v": v})
+    if cnt >= 255:
+        res.notes.append("big-multiplicity run reached the ceiling")
+    res.evaluations += 1
+    res.nontrivial(["big_multiplicity", s, v])
+    res.count("big_multiplicity_adds")
+    sess.add_case({"slice": "rand_refill-big", "seed": s, "v": v}, ops)
     mism, ncmp = sess.run()
     res.mismatches += mism
     res.slices["rand_refill"] = {"runs": runs, "comparisons": ncmp, "mismatches": len(mism), "wall_s": round(time.time() - t0, 1)}
